@@ -202,11 +202,8 @@ defjvp(anp.std, forward_grad_np_std)
 def fwd_grad_chooser(g, ans, x, axis=None, keepdims=False):
     if anp.isscalar(x):
         return g
-    if not keepdims:
-        if isinstance(axis, int):
-            ans = anp.expand_dims(ans, axis)
-        elif isinstance(axis, tuple):
-            ans = anp.expand_dims(ans, axis)
+    if not keepdims and axis is not None:
+        ans = anp.expand_dims(ans, axis)
     chosen_locations = x == ans
     return anp.sum((g * chosen_locations), axis=axis, keepdims=keepdims) / anp.sum(
         chosen_locations, axis=axis, keepdims=keepdims
